@@ -245,6 +245,47 @@ pub fn check(case: &Case, w: usize) -> CheckResult {
             let _ = b;
         }
     }
+    // `config generate` reads the configuration from stdin - a parse path of its own: the same
+    // value in different serialisations must be accepted alike and generate the same configuration
+    {
+        let mut gv = value.clone();
+        if let Some(o) = gv.as_object_mut() {
+            o.insert("source".into(), json!({"path": "Monorail.src.json"}));
+        }
+        let mut layouts: Vec<Layout> = vec![Layout::compact()];
+        layouts.extend(case.layouts.iter().take(3).cloned());
+        let mut reference: Option<Value> = None;
+        for (k, l) in layouts.iter().enumerate() {
+            let bytes = jsonw::write(&gv, l);
+            env.write_file("Monorail.src.json", &bytes);
+            let _ = std::fs::remove_file(env.config_path());
+            let _ = std::fs::remove_file(env.path("Monorail.lock"));
+            let g = env.mr_stdin(&["config", "generate"], &bytes);
+            let generated = std::fs::read(env.config_path()).ok().and_then(|b| serde_json::from_slice::<Value>(&b).ok()).map(|mut v| {
+                if let Some(o) = v.as_object_mut() {
+                    o.remove("source"); // carries the checksum of the source bytes
+                }
+                v
+            });
+            if k == 0 {
+                if !g.ok() || generated.is_none() {
+                    return viol_obs("c18.generate.compact.rejected", "`config generate` rejects a valid configuration in compact form".into(), g.brief());
+                }
+                reference = generated;
+                continue;
+            }
+            if !g.ok() || generated != reference {
+                return viol_obs(
+                    "c18.generate.differs",
+                    format!("`config generate` behaves differently for another serialisation of the same value ({} bytes on stdin, layout {:?})", bytes.len(), l),
+                    json!({"run": g.brief(), "generated_equal": generated == reference}),
+                );
+            }
+            if bytes.len() > 65536 {
+                info = info.class("generate-from-stdin>64KiB");
+            }
+        }
+    }
     info.nontrivial = nontrivial;
     info = info.class_if(case.config.targets.len() >= 100, "targets>=100");
     Ok(info.inv(env.invocations))
@@ -254,7 +295,7 @@ pub fn run(ctx: &mut Ctx) {
     ctx.rule = "a valid configuration value (small generated configs with nesting/uses/ignores/sequences, or 20-300 targets) x 4-8 serialisations by the harness's own writer: compact, pretty, \
 random inter-token whitespace, shuffled key order in every object, \\uXXXX escapes, whitespace padding before/inside/after the document up to 4000, 8191-8193, 16 KiB, 64 KiB, 200 KiB, and alignment of a non-ASCII character so that it ends before / straddles / starts at a multiple of 1-64 KiB. \
 oracle (metamorphic): the compact form is accepted, and every serialisation yields JSON-equal stdout (modulo timestamp) and equal exit status for `config show`, `target show -g`, \
-`analyze --target-groups`, and for the small configurations (4 named sequences, 4 command definitions and 3 argmap definitions on two targets, every documented optional field spelled out) also `target show --commands`, `run -s check`, `run -s release`, `run -c build zeta alpha` (failed flag and statuses). non-trivial = some serialisation is larger than 8192 bytes and its first 8192 bytes are not a complete document; distinct by SHA-256"
+`analyze --target-groups`, and for the small configurations (4 named sequences, 4 command definitions and 3 argmap definitions on two targets, every documented optional field spelled out) also `target show --commands`, `run -s check`, `run -s release`, `run -c build zeta alpha` (failed flag and statuses); finally `config generate` is fed the value (plus a source path) on stdin in compact form and in the first three serialisations and must write the same configuration each time. non-trivial = some serialisation is larger than 8192 bytes and its first 8192 bytes are not a complete document; distinct by SHA-256"
         .to_string();
     ctx.assumptions = vec!["validity of the value is established through the in-process hook (serde + Index), independently of file reading".into()];
     let n = ctx.n(200, 4000);
